@@ -88,6 +88,7 @@ fn main() {
 
 fn single_case(sp: &'static PropSpec, thorough: bool, case_seed: u64) -> i32 {
 	run::install_panic_hook();
+	run::limit_memory();
 	let mut ctx = run::Ctx {
 		prop: sp.id,
 		thorough,
